@@ -272,6 +272,19 @@ func opReadEncode(s int) storeOp {
 		},
 		mod: func(*StoreWorld) {}}
 }
+// opReadAll: every read-only operation in one step (the C15 worlds, where what
+// matters is that something derived from the content may have been cached
+// before the Clear).
+func opReadAll(s int) storeOp {
+	a, b, c := opReadIter(s), opReadEncode(s), opReadMisc(s)
+	return storeOp{name: fmt.Sprintf("read %s: KeyAtRank(0), ForEach, Bins, Encode, TotalCount, MinIndex, MaxIndex, ToProto, Copy", slotName(s)), tag: "read",
+		real: func(st []store.Store, k []Kind, twin bool) {
+			a.real(st, k, twin)
+			b.real(st, k, twin)
+			c.real(st, k, twin)
+		},
+		mod: func(*StoreWorld) {}}
+}
 func opReadMisc(s int) storeOp {
 	return storeOp{name: fmt.Sprintf("read %s: TotalCount, MinIndex, MaxIndex, ToProto, Copy", slotName(s)), tag: "read",
 		real: func(st []store.Store, _ []Kind, _ bool) {
